@@ -426,45 +426,56 @@ func (st *c12State) drawCursor(fi *FuncInfo, paths []*c12Path) {
 			}
 		}
 	}
-	var tmpl string
-	var syms []c12Val
+	// every path of showCursor contributes (a sequence written only under a guard is still part of the chain)
+	type shown struct {
+		tmpl string
+		syms []c12Val
+	}
+	var all []shown
+	var tmpls []string
 	for _, p := range st.runOnHoles(emit, 0) {
 		if len(p.Ret) == 1 {
 			if s, ok := p.Ret[0].(c12Str); ok {
-				tmpl, syms = c12Template(s)
+				t, sy := c12Template(s)
+				all = append(all, shown{t, sy})
+				tmpls = append(tmpls, t)
 			}
 		}
 	}
 	hostToEmu := map[string]string{}
-	hi := 0
-	for _, s := range parseSeqs(tmpl) {
-		n := c12CountHoles(s.Raw)
-		if s.Kind == "CSI" && n > 0 {
-			ps, _, err := st.feedEmulator(s, 0, nil)
-			if err == nil {
-				for _, p := range ps {
-					for _, ef := range p.Effects {
-						if sym, ok := ef.Val.(c12Sym); ok && sym.Hole >= 0 && sym.Hole < n && hi+sym.Hole < len(syms) {
-							if hs, ok := syms[hi+sym.Hole].(c12Sym); ok && hs.Hole < 0 {
-								hostToEmu[hs.Desc] = ef.Path
+	for _, sh := range all {
+		hi := 0
+		for _, s := range parseSeqs(sh.tmpl) {
+			n := c12CountHoles(s.Raw)
+			if s.Kind == "CSI" && n > 0 {
+				ps, _, err := st.feedEmulator(s, 0, nil)
+				if err == nil {
+					for _, p := range ps {
+						for _, ef := range p.Effects {
+							if sym, ok := ef.Val.(c12Sym); ok && sym.Hole >= 0 && sym.Hole < n && hi+sym.Hole < len(sh.syms) {
+								if hs, ok := sh.syms[hi+sym.Hole].(c12Sym); ok && hs.Hole < 0 {
+									hostToEmu[hs.Desc] = ef.Path
+								}
 							}
 						}
 					}
 				}
 			}
+			hi += n
 		}
-		hi += n
 	}
 	if len(paramField) != 3 || len(hostToEmu) < 3 {
-		c.undecided("C12.d", keyBase, fi.Decl.Pos(), "could not establish the cursor chain: ShowCursor parameters → %v, showCursor() %q → emulator fields %v", paramField, tmpl, hostToEmu)
+		c.undecided("C12.d", keyBase, fi.Decl.Pos(), "could not establish the cursor chain: ShowCursor parameters → %v, showCursor() %q → emulator fields %v", paramField, tmpls, hostToEmu)
 		return
 	}
 	vis := ""
-	for _, s := range parseSeqs(tmpl) {
-		if s.Kind == "CSI" && s.Private == "?" && s.Final == "h" {
-			me, _ := st.modeEffects(s.Raw)
-			for f := range me.fields {
-				vis = "Model.mode." + f.Name()
+	for _, sh := range all {
+		for _, s := range parseSeqs(sh.tmpl) {
+			if s.Kind == "CSI" && s.Private == "?" && s.Final == "h" {
+				me, _ := st.modeEffects(s.Raw)
+				for f := range me.fields {
+					vis = "Model.mode." + f.Name()
+				}
 			}
 		}
 	}
